@@ -14,7 +14,11 @@ pub fn gen(tier: &str, seed: u64, emit: &mut dyn FnMut(String)) {
         if pk.len() > maxn { let start = 0; pk = pk[start..maxn].to_vec(); }
         if i % 2 == 1 {
             for _ in 0..rng.range(1, 4) { let k = rng.below(pk.len() as u64) as usize;
-                match rng.below(4) { 0 => pk[k][0] = 0x00, 1 => { let b = rng.below(188) as usize; pk[k][b] ^= 1 << rng.below(8); } 2 => { let d = pk[k].clone(); pk.insert(k, d); } _ => { pk.remove(k); if pk.is_empty() { pk.push(rng.bytes(188)); } } } }
+                match rng.below(6) { 0 => pk[k][0] = 0x00, 1 => { let b = rng.below(188) as usize; pk[k][b] ^= 1 << rng.below(8); } 2 => { let d = pk[k].clone(); pk.insert(k, d); }
+                    // flagged packets in the middle of a run of equal PIDs (the dispatcher caches the handler across the run)
+                    3 => { let mut d = pk[k].clone(); d[1] |= 0x80; pk.insert(k + 1, d); }
+                    4 => { let mut d = pk[k].clone(); d[3] |= (rng.range(1, 3) as u8) << 6; pk.insert(k + 1, d); }
+                    _ => { pk.remove(k); if pk.is_empty() { pk.push(rng.bytes(188)); } } } }
             if pk.len() > maxn { pk.truncate(maxn); }
         }
         let n = pk.len();
@@ -26,6 +30,21 @@ pub fn gen(tier: &str, seed: u64, emit: &mut dyn FnMut(String)) {
             chunks.push(cur);
             if mask % 7 == 3 { let at = rng.below(chunks.len() as u64 + 1) as usize; chunks.insert(at, vec![]); }   // empty pushes
             let mut line = dmx_case(0, "", &chunks);
+            line.push_str(&format!(" #g{}", group));
+            emit(line);
+        }
+    }
+    // scripted handlers: changes queued for the handler's own PID, for the PID of the next packet, inserts and removes,
+    // with flagged packets in the runs; every aligned chunking
+    for _ in 0..(if big { 400 } else { 120 }) {
+        let (scripts, pk) = crate::suites::c06::scripted_stream(&mut rng, 2, if big { 10 } else { 8 });
+        let n = pk.len();
+        group += 1;
+        for mask in 0u32..(1u32 << (n - 1)) {
+            let mut chunks: Vec<Vec<u8>> = vec![]; let mut cur: Vec<u8> = vec![];
+            for (j, p) in pk.iter().enumerate() { cur.extend_from_slice(p); if j + 1 < n && (mask >> j) & 1 == 1 { chunks.push(std::mem::take(&mut cur)); } }
+            chunks.push(cur);
+            let mut line = dmx_case(0, &scripts, &chunks);
             line.push_str(&format!(" #g{}", group));
             emit(line);
         }
